@@ -1,8 +1,71 @@
-/- line-protocol handlers for the C07 models (stub: nothing modelled yet) -/
-import FontVerif.Model.Base
-namespace FontVerif.Drv.C07
-open FontVerif
+/- line-protocol handlers for the C07 models (Model/Determinism.lean)
 
-def handle (_cmd : String) (_args : List String) : Option String := none
+  sched <c0> <thread> <thread> …        → `t=id,id,… t=…` (threads ascending): ids each thread obtains
+  fromstore <obj> <obj> …               → ids of `Graph::from_obj_store` in BTreeMap order (objects given in the
+                                           hash map's iteration order)
+  kahn <root> <obj> …                   → write order of `sort_kahn`
+  pack <root> <obj> …                   → hex of `serialize` after `sort_kahn` (graphs without overflow)
+  roots <roots|-> <old:new> …           → `renameRoots`
+  object token: `id:hexbytes:links`, links = `pos.width.target.adj` joined by `,` or `-`
+-/
+import FontVerif.Model.Base
+import FontVerif.Model.Determinism
+namespace FontVerif.Drv.C07
+open FontVerif FontVerif.Determinism
+
+def joinNats (xs : List Nat) (sep : String := " ") : String :=
+  if xs.isEmpty then "-" else sep.intercalate (xs.map toString)
+
+def parseLink? (s : String) : Option Link :=
+  match s.splitOn "." with
+  | [p, w, t, a] => do
+    let p ← parseNat? p; let w ← parseNat? w; let t ← parseNat? t; let a ← parseNat? a
+    some { pos := p, width := w, target := t, adj := a }
+  | _ => none
+
+def parseObj? (s : String) : Option (Obj × Nat) :=
+  match s.splitOn ":" with
+  | [id, bytes, links] => do
+    let id ← parseNat? id
+    let bs ← parseHex? bytes
+    let ls ← if links = "-" then some [] else (links.splitOn ",").mapM parseLink?
+    some ({ bytes := bs, links := ls }, id)
+  | _ => none
+
+def hexOf (bs : List Nat) : String :=
+  if bs.isEmpty then "-" else
+    String.ofList (bs.flatMap (fun b =>
+      let d := fun (n : Nat) => if n < 10 then Char.ofNat (48 + n) else Char.ofNat (87 + n)
+      [d (b / 16 % 16), d (b % 16)]))
+
+def handle (cmd : String) (args : List String) : Option String :=
+  match cmd, args with
+  | "sched", c0 :: threads => do
+    let c ← parseNat? c0
+    let ts ← parseNats? threads
+    let tr := runSched c ts
+    let names := OSet.ofList ts
+    some (if names.isEmpty then "-" else
+      " ".intercalate (names.map (fun t => s!"{t}={joinNats (idsOf t tr) ","}")))
+  | "fromstore", objs => do
+    let es ← objs.mapM parseObj?
+    some (joinNats (fromObjStore es).keys)
+  | "kahn", root :: objs => do
+    let r ← parseNat? root
+    let es ← objs.mapM parseObj?
+    let m := fromObjStore es
+    some (if kahnPanics m r then "panic" else joinNats (sortKahn m r))
+  | "pack", root :: objs => do
+    let r ← parseNat? root
+    let es ← objs.mapM parseObj?
+    let m := fromObjStore es
+    some (if kahnPanics m r then "panic" else hexOf (packSimple m r))
+  | "roots", roots :: pairs => do
+    let rs ← if roots = "-" then some [] else parseNats? (roots.splitOn ",")
+    let ps ← pairs.mapM (fun p => match p.splitOn ":" with
+      | [a, b] => do let a ← parseNat? a; let b ← parseNat? b; some (a, b)
+      | _ => none)
+    some (joinNats (renameRoots ps (OSet.ofList rs)))
+  | _, _ => none
 
 end FontVerif.Drv.C07
